@@ -18,6 +18,9 @@ class ClassInfo:
         self.inner: dict[str, ClassInfo] = {}
         for st in node.body:
             if isinstance(st, (ast.FunctionDef, ast.AsyncFunctionDef)):
+                is_setter = any(isinstance(d, ast.Attribute) and d.attr in ("setter", "deleter") for d in st.decorator_list)
+                if is_setter and st.name in self.methods:
+                    continue        # keep the property getter under this name; setters are looked up by do_setattr
                 self.methods[st.name] = st
             elif isinstance(st, ast.Assign):
                 for t in st.targets:
